@@ -21,7 +21,8 @@ def run():
     specs = [dict(harness="fs_move", name="execute(Move) never overwrites / deletes before copy complete",
                   functions=fn, bounds="one command, every subset of FS calls failing, unwind 2",
                   key="execute:move:C18")]
-    e1.run_harnesses(rep, "C18", src, specs, jobs=2, timeout=1500 if tier() == "quick" else 3600)
+    e1.run_harnesses(rep, "C18", src, specs, jobs=2, timeout=1500 if tier() == "quick" else 3600,
+                     replayer=e1.fs_replayer("faults", {"fs_move": "move"}))
     try:
         from obligations import C18_e2
         C18_e2.add(rep)
